@@ -233,6 +233,18 @@ func (c *Compiled) RunCtx(ctx *eval.Ctx, env *Env, kind string) (o Outcome) {
 			o.Events = drain(c.Ch)
 		}
 	}()
+	if env.Plan != nil && env.Plan.NilCtx {
+		// a program that reads no variable may be evaluated without a Ctx; user
+		// operators find their Env through the host for the duration
+		ctx = nil
+		prev := c.Host.CompileEnv
+		c.Host.CompileEnv = env
+		defer func() { c.Host.CompileEnv = prev }()
+	}
+	if env.Plan != nil && env.Plan.RawErr {
+		rawErrArmed = true
+		defer func() { rawErrArmed = false }()
+	}
 	switch kind {
 	case "", "eval":
 		o.Val, o.Err = c.Expr.Eval(ctx)
